@@ -71,7 +71,20 @@ func rewriteManifest(cacheDir, d, rel string, chooseOld func(rel string) bool, c
 		for name, a := range m.Contents {
 			om.Contents[name] = &oldArt{a.Checksum, a.Path, a.IsDir, a.DisableRecursion, a.SkipCache}
 		}
-		out, err = json.Marshal(om)
+		if len(m.Contents)%2 == 1 {
+			// the same old-schema manifest with its keys in sorted order, as a tool that
+			// re-serialised the cache (jq -S, a Python script) would leave it
+			gm := map[string]interface{}{"Path": om.Path}
+			gc := map[string]interface{}{}
+			for name, a := range om.Contents {
+				gc[name] = map[string]interface{}{"Checksum": a.Checksum, "Path": a.Path, "IsDir": a.IsDir,
+					"DisableRecursion": a.DisableRecursion, "SkipCache": a.SkipCache}
+			}
+			gm["Contents"] = gc
+			out, err = json.Marshal(gm)
+		} else {
+			out, err = json.Marshal(om)
+		}
 		must(err)
 		out = append(out, '\n')
 	} else {
